@@ -30,26 +30,63 @@ import (
 	"testing"
 	"time"
 
+	"github.com/cosmos/cosmos-sdk/simapp"
 	sdk "github.com/cosmos/cosmos-sdk/types"
 	"github.com/ethereum/go-ethereum/common"
 	"github.com/ethereum/go-ethereum/consensus/ethash"
-	"github.com/ethereum/go-ethereum/consensus/misc"
 	ethtypes "github.com/ethereum/go-ethereum/core/types"
 	"github.com/ethereum/go-ethereum/params"
+	abci "github.com/tendermint/tendermint/abci/types"
+	"github.com/tendermint/tendermint/libs/log"
 	tmproto "github.com/tendermint/tendermint/proto/tendermint/types"
+	dbm "github.com/tendermint/tm-db"
+	"github.com/tharsis/ethermint/encoding"
 
 	"github.com/teleport-network/teleport/app"
 	xibcethtypes "github.com/teleport-network/teleport/x/xibc/clients/light-clients/eth/types"
+	xibcclient "github.com/teleport-network/teleport/x/xibc/core/client"
 	clienttypes "github.com/teleport-network/teleport/x/xibc/core/client/types"
+	"github.com/teleport-network/teleport/x/xibc/core/host"
 	"github.com/teleport-network/teleport/x/xibc/exported"
 )
 
-const c10Chain = "eth"
+// chain names of the two ETH clients of one world (`use a|b`)
+var c10Names = map[string]string{"a": "eth", "b": "eth-two"}
+
+// c10Base is the EIP-1559 base fee of a child of p, computed with fresh big integers only: go-ethereum's
+// misc.CalcBaseFee reads the shared constant common.Big1, which a defect in the code under test may have overwritten
+func c10Base(p *c10Hdr) *big.Int {
+	target := p.GasLimit / 2
+	base := new(big.Int).Set(p.BaseFee)
+	if p.GasUsed == target {
+		return base
+	}
+	if target == 0 {
+		return nil
+	}
+	t := new(big.Int).SetUint64(target)
+	if p.GasUsed > target {
+		d := new(big.Int).SetUint64(p.GasUsed - target)
+		d.Mul(d, base).Div(d, t).Div(d, big.NewInt(8))
+		if d.Sign() == 0 {
+			d.SetInt64(1)
+		}
+		return base.Add(base, d)
+	}
+	d := new(big.Int).SetUint64(target - p.GasUsed)
+	d.Mul(d, base).Div(d, t).Div(d, big.NewInt(8))
+	base.Sub(base, d)
+	if base.Sign() < 0 {
+		base.SetInt64(0)
+	}
+	return base
+}
 
 type c10Hdr struct {
 	ParentHash, UncleHash, Coinbase, Root, TxHash, ReceiptHash, Bloom []byte
 	Difficulty                                                        *big.Int
 	Number, GasLimit, GasUsed, Time                                   uint64
+	Rev                                                               uint64 // Height.RevisionNumber (op line: number field "rev-number" when non-zero)
 	Extra, MixDigest                                                  []byte
 	Nonce                                                             uint64
 	BaseFee                                                           *big.Int
@@ -70,7 +107,7 @@ func (h *c10Hdr) eth() *ethtypes.Header {
 func (h *c10Hdr) proto() xibcethtypes.Header {
 	return xibcethtypes.Header{
 		ParentHash: h.ParentHash, UncleHash: h.UncleHash, Coinbase: h.Coinbase, Root: h.Root, TxHash: h.TxHash, ReceiptHash: h.ReceiptHash,
-		Bloom: h.Bloom, Difficulty: h.Difficulty.Bytes(), Height: clienttypes.NewHeight(0, h.Number), GasLimit: h.GasLimit, GasUsed: h.GasUsed,
+		Bloom: h.Bloom, Difficulty: h.Difficulty.Bytes(), Height: clienttypes.NewHeight(h.Rev, h.Number), GasLimit: h.GasLimit, GasUsed: h.GasUsed,
 		Time: h.Time, Extra: h.Extra, MixDigest: h.MixDigest, Nonce: h.Nonce, BaseFee: h.BaseFee.Bytes(),
 	}
 }
@@ -83,8 +120,15 @@ func (h *c10Hdr) String() string {
 		pow = "1"
 	}
 	return strings.Join([]string{hx(h.ParentHash), hx(h.UncleHash), hx(h.Coinbase), hx(h.Root), hx(h.TxHash), hx(h.ReceiptHash), hx(h.Bloom),
-		h.Difficulty.String(), fmt.Sprint(h.Number), fmt.Sprint(h.GasLimit), fmt.Sprint(h.GasUsed), fmt.Sprint(h.Time), hx(h.Extra),
+		h.Difficulty.String(), h.numField(), fmt.Sprint(h.GasLimit), fmt.Sprint(h.GasUsed), fmt.Sprint(h.Time), hx(h.Extra),
 		hx(h.MixDigest), fmt.Sprint(h.Nonce), h.BaseFee.String(), hx(h.Hash[:]), pow}, " ")
+}
+
+func (h *c10Hdr) numField() string {
+	if h.Rev != 0 {
+		return fmt.Sprintf("%d-%d", h.Rev, h.Number)
+	}
+	return fmt.Sprint(h.Number)
 }
 
 func c10Parse(f []string) (*c10Hdr, bool) {
@@ -96,6 +140,9 @@ func c10Parse(f []string) (*c10Hdr, bool) {
 	h := &c10Hdr{ParentHash: unhx(f[0]), UncleHash: unhx(f[1]), Coinbase: unhx(f[2]), Root: unhx(f[3]), TxHash: unhx(f[4]), ReceiptHash: unhx(f[5]),
 		Bloom: unhx(f[6]), Difficulty: b(f[7]), Number: u(f[8]), GasLimit: u(f[9]), GasUsed: u(f[10]), Time: u(f[11]), Extra: unhx(f[12]),
 		MixDigest: unhx(f[13]), Nonce: u(f[14]), BaseFee: b(f[15]), Pow: f[17] == "1"}
+	if rn := strings.SplitN(f[8], "-", 2); len(rn) == 2 {
+		h.Rev, h.Number = u(rn[0]), u(rn[1])
+	}
 	if h.Difficulty == nil || h.BaseFee == nil {
 		return nil, false
 	}
@@ -106,11 +153,9 @@ func c10Parse(f []string) (*c10Hdr, bool) {
 	return h, true
 }
 
-type c10World struct {
-	app      *app.Teleport
-	base     sdk.Context
-	ctx      sdk.Context
-	hist     []string
+// bookkeeping of one client
+type c10Book struct {
+	created  bool
 	chainID  uint64
 	trusting uint64
 	accepted map[common.Hash]*c10Hdr // every header accepted so far in this history (incl. the initial one)
@@ -118,16 +163,36 @@ type c10World struct {
 	head     common.Hash
 }
 
+type c10World struct {
+	app       *app.Teleport
+	base      sdk.Context
+	ctx       sdk.Context
+	hist      []string
+	c10Book           // the client currently addressed
+	name      string  // its chain name
+	cur       string  // "a" | "b"
+	other     c10Book // the other client
+	otherDump string  // its dump when it was left (frame oracle)
+	write     func()  // flushes ctx into base (whole-app restart only)
+}
+
+func (w *c10World) otherName() string {
+	if w.cur == "a" {
+		return c10Names["b"]
+	}
+	return c10Names["a"]
+}
+
 func newC10World() *c10World {
 	a := app.Setup(false, nil)
 	ctx := a.BaseApp.NewContext(false, tmproto.Header{Height: 1, ChainID: "teleport_9000-1", Time: time.Unix(1700000000, 0)})
-	w := &c10World{app: a, base: ctx}
+	w := &c10World{app: a, base: ctx, cur: "a", name: c10Names["a"]}
 	w.ctx, _ = ctx.CacheContext()
 	return w
 }
 
-func (w *c10World) store(ctx sdk.Context) sdk.KVStore {
-	return w.app.XIBCKeeper.ClientKeeper.ClientStore(ctx, c10Chain)
+func (w *c10World) store(ctx sdk.Context, name string) sdk.KVStore {
+	return w.app.XIBCKeeper.ClientKeeper.ClientStore(ctx, name)
 }
 
 // observation of the real store
@@ -140,10 +205,16 @@ type c10Obs struct {
 	dump    string
 }
 
-func (w *c10World) observe(ctx sdk.Context) c10Obs {
+func (w *c10World) observe(ctx sdk.Context) c10Obs { return w.observeOf(ctx, w.name) }
+
+func (w *c10World) observeOf(ctx sdk.Context, c10Chain string) c10Obs {
 	o := c10Obs{cons: map[uint64][2]string{}, hdrs: map[string]bool{}}
 	k := w.app.XIBCKeeper.ClientKeeper
-	st := w.store(ctx)
+	if _, ok := k.GetClientState(ctx, c10Chain); !ok {
+		o.dump = "-"
+		return o
+	}
+	st := w.store(ctx, c10Chain)
 	if cs, ok := k.GetClientState(ctx, c10Chain); ok {
 		if e, ok := cs.(*xibcethtypes.ClientState); ok {
 			o.head = e.Header.Hash()
@@ -213,12 +284,19 @@ func (w *c10World) observe(ctx sdk.Context) c10Obs {
 	return o
 }
 
-var c10London = &params.ChainConfig{ChainID: big.NewInt(4), LondonBlock: big.NewInt(0)}
-
 // rules of the property, evaluated with go-ethereum's own functions: "" = child is rule-abiding w.r.t. parent
+// every fork up to London active from block 0, no later bomb delay: go-ethereum then uses the EIP-3554 calculator
+// (bomb delay 9,700,000) for every height, which is the one the client has
+var c10AllForks = &params.ChainConfig{ChainID: big.NewInt(1), HomesteadBlock: big.NewInt(0), EIP150Block: big.NewInt(0), EIP155Block: big.NewInt(0),
+	EIP158Block: big.NewInt(0), ByzantiumBlock: big.NewInt(0), ConstantinopleBlock: big.NewInt(0), PetersburgBlock: big.NewInt(0),
+	IstanbulBlock: big.NewInt(0), MuirGlacierBlock: big.NewInt(0), BerlinBlock: big.NewInt(0), LondonBlock: big.NewInt(0)}
+
 func (w *c10World) ruleBroken(p, h *c10Hdr, now uint64) string {
 	if h.Number != p.Number+1 {
 		return "number"
+	}
+	if h.Rev != p.Rev {
+		return "revision" // "one height below": the parent's height is (p.Rev, p.Number), the child's must be (p.Rev, p.Number+1)
 	}
 	if !(p.Time < h.Time) {
 		return "time-parent"
@@ -237,14 +315,14 @@ func (w *c10World) ruleBroken(p, h *c10Hdr, now uint64) string {
 	if p.GasLimit/2 == 0 && p.GasUsed != 0 {
 		return "basefee-undefined"
 	}
-	if misc.CalcBaseFee(c10London, p.eth()).Cmp(h.BaseFee) != 0 {
+	if want := c10Base(p); want == nil || want.Cmp(h.BaseFee) != 0 {
 		return "base-fee"
 	}
 	if new(big.Int).And(h.Difficulty, new(big.Int).SetUint64(^uint64(0))).Sign() == 0 {
 		return "difficulty-zero"
 	}
 	if w.chainID != 4 {
-		if ethash.CalcDifficulty(params.MainnetChainConfig, h.Time, p.eth()).Cmp(h.Difficulty) != 0 {
+		if ethash.CalcDifficulty(c10AllForks, h.Time, p.eth()).Cmp(h.Difficulty) != 0 {
 			return "difficulty"
 		}
 		if len(h.Extra) > 32 {
@@ -279,7 +357,7 @@ func (w *c10World) submit(h *c10Hdr, now uint64, commit bool) (string, string) {
 	cctx = cctx.WithBlockTime(time.Unix(int64(now), 0))
 	p := h.proto()
 	var err error
-	pan, msg := safely(func() { err = w.app.XIBCKeeper.ClientKeeper.UpdateClient(cctx, c10Chain, &p) })
+	pan, msg := safely(func() { err = w.app.XIBCKeeper.ClientKeeper.UpdateClient(cctx, w.name, &p) })
 	if pan {
 		return "panic", msg
 	}
@@ -290,6 +368,163 @@ func (w *c10World) submit(h *c10Hdr, now uint64, commit bool) (string, string) {
 		write()
 	}
 	return "ok", ""
+}
+
+// frame oracle: an operation on one client leaves the other client's store untouched
+func (w *c10World) frame(r *Rec, what string) {
+	if !w.other.created && w.otherDump == "-" {
+		return
+	}
+	if d := w.observeOf(w.ctx, w.otherName()).dump; d != w.otherDump {
+		r.Find(Finding{Sig: "C10:other-client-changed:" + what, What: "an operation on client " + w.name + " changed the store of client " + w.otherName(),
+			Ops: w.histCopy(), Obs: d, Req: w.otherDump})
+	}
+	r.Count("frame.checked")
+}
+
+// go-ethereum's shared big-integer constants must keep their values whatever the client computed
+func c10Constants(r *Rec, w *c10World) {
+	for name, v := range map[string][2]*big.Int{"Big0": {common.Big0, big.NewInt(0)}, "Big1": {common.Big1, big.NewInt(1)}, "Big2": {common.Big2, big.NewInt(2)},
+		"Big3": {common.Big3, big.NewInt(3)}, "Big32": {common.Big32, big.NewInt(32)}, "Big256": {common.Big256, big.NewInt(256)}, "Big257": {common.Big257, big.NewInt(257)}} {
+		if v[0].Cmp(v[1]) != 0 {
+			r.Find(Finding{Sig: "C10:shared-constant-overwritten:" + name, What: "header verification overwrote go-ethereum's shared constant common." + name + " (now " + v[0].String() + "): later verdicts depend on the history of the process",
+				Ops: w.histCopy(), Obs: v[0].String(), Req: v[1].String()})
+			v[0].Set(v[1]) // keep the rest of the run meaningful
+		}
+	}
+}
+
+// raw content of every client store (keys and values), for the restart oracle
+func (w *c10World) rawClients(ctx sdk.Context) string {
+	st := ctx.KVStore(w.app.GetKey(host.StoreKey))
+	it := sdk.KVStorePrefixIterator(st, []byte("clients/"))
+	defer it.Close()
+	var sb strings.Builder
+	for ; it.Valid(); it.Next() {
+		sb.WriteString(hex.EncodeToString(it.Key()) + "=" + hex.EncodeToString(it.Value()) + ";")
+	}
+	return sb.String()
+}
+
+// restart: ExportGenesis of the client module → JSON through the app codec → Validate → wipe every client store → InitGenesis
+func (w *c10World) restart(r *Rec) string {
+	k := w.app.XIBCKeeper.ClientKeeper
+	before := w.rawClients(w.ctx)
+	dA, dB := w.observeOf(w.ctx, c10Names["a"]).dump, w.observeOf(w.ctx, c10Names["b"]).dump
+	var gs clienttypes.GenesisState
+	cdc := w.app.AppCodec()
+	pan, msg := safely(func() {
+		g := xibcclient.ExportGenesis(w.ctx, k)
+		bz := cdc.MustMarshalJSON(&g)
+		cdc.MustUnmarshalJSON(bz, &gs)
+		if err := gs.UnpackInterfaces(w.app.InterfaceRegistry()); err != nil {
+			panic(err)
+		}
+	})
+	if pan {
+		r.Find(Finding{Sig: "C10:export-panics", What: "ExportGenesis / JSON round trip panics: " + msg, Ops: w.histCopy(), Obs: "panic", Req: "export"})
+		return "panic"
+	}
+	if err := gs.Validate(); err != nil {
+		r.Find(Finding{Sig: "C10:export-invalid", What: "exported client genesis fails its own Validate: " + err.Error(), Ops: w.histCopy(), Obs: err.Error(), Req: "valid"})
+	}
+	st := w.ctx.KVStore(w.app.GetKey(host.StoreKey))
+	var keys [][]byte
+	it := sdk.KVStorePrefixIterator(st, []byte("clients/"))
+	for ; it.Valid(); it.Next() {
+		keys = append(keys, append([]byte{}, it.Key()...))
+	}
+	it.Close()
+	for _, key := range keys {
+		st.Delete(key)
+	}
+	r.Extra["restart_keys_wiped"] = len(keys)
+	pan, msg = safely(func() { xibcclient.InitGenesis(w.ctx, k, gs) })
+	if pan {
+		r.Find(Finding{Sig: "C10:init-panics", What: "InitGenesis panics on the export of a reachable state: " + msg, Ops: w.histCopy(), Obs: "panic", Req: "import"})
+		return "panic"
+	}
+	after := w.rawClients(w.ctx)
+	aA, aB := w.observeOf(w.ctx, c10Names["a"]).dump, w.observeOf(w.ctx, c10Names["b"]).dump
+	if after != before || aA != dA || aB != dB {
+		first := ""
+		bm, am := strings.Split(before, ";"), strings.Split(after, ";")
+		set := map[string]bool{}
+		for _, x := range am {
+			set[x] = true
+		}
+		for _, x := range bm {
+			if !set[x] {
+				kv := strings.SplitN(x, "=", 2)
+				kb, _ := hex.DecodeString(kv[0])
+				first = string(kb)
+				break
+			}
+		}
+		r.Find(Finding{Sig: "C10:restart-changed-state", What: fmt.Sprintf("client stores differ after export → import (%d entries before, %d after; first lost or changed key %q)", len(bm)-1, len(am)-1, first),
+			Ops: w.histCopy(), Obs: aA + " | " + aB, Req: dA + " | " + dB})
+	}
+	r.Count("restart")
+	if w.cur == "a" {
+		w.otherDump = aB
+	} else {
+		w.otherDump = aA
+	}
+	if strings.Contains(dA+dB, "X:") && len(keys) > 6 {
+		r.Count("restart.with-side-data")
+	}
+	return "ok " + aA + " | " + aB
+}
+
+// restartApp: whole-app restart — flush and commit the block, app.ExportAppStateAndValidators (every module's ExportGenesis,
+// JSON through the app codec), a fresh app.NewTeleport on a new db, InitChain with the exported state; the history
+// continues on the new app.  Only used on a throw-away world (the committed state would leak into later histories).
+func (w *c10World) restartApp(r *Rec) string {
+	before := w.rawClients(w.ctx)
+	dA, dB := w.observeOf(w.ctx, c10Names["a"]).dump, w.observeOf(w.ctx, c10Names["b"]).dump
+	blockTime := w.base.BlockTime()
+	var failure string
+	pan, msg := safely(func() {
+		w.write()
+		w.app.Commit()
+		exported, err := w.app.ExportAppStateAndValidators(false, nil)
+		if err != nil {
+			failure = "export: " + err.Error()
+			return
+		}
+		newApp := app.NewTeleport(log.NewNopLogger(), dbm.NewMemDB(), nil, true, map[int64]bool{}, app.DefaultNodeHome, 5,
+			encoding.MakeConfig(app.ModuleBasics), simapp.EmptyAppOptions{})
+		newApp.InitChain(abci.RequestInitChain{ChainId: "teleport_9000-1", Time: blockTime, InitialHeight: exported.Height,
+			Validators: []abci.ValidatorUpdate{}, ConsensusParams: exported.ConsensusParams, AppStateBytes: exported.AppState})
+		newApp.Commit()
+		hdr := tmproto.Header{ChainID: "teleport_9000-1", Height: newApp.LastBlockHeight() + 1, Time: blockTime}
+		newApp.BeginBlock(abci.RequestBeginBlock{Header: hdr})
+		w.app = newApp
+		w.base = newApp.BaseApp.NewContext(false, hdr)
+		w.ctx, w.write = w.base.CacheContext()
+	})
+	if pan {
+		failure = "panic: " + msg
+	}
+	if failure != "" {
+		if len(failure) > 500 {
+			failure = failure[:500]
+		}
+		r.Find(Finding{Sig: "C10:restartapp-failed", What: "whole-app export / InitChain of the exported genesis failed: " + failure, Ops: w.histCopy(), Obs: failure, Req: "the chain restarts from its export"})
+		return "panic"
+	}
+	after := w.rawClients(w.ctx)
+	aA, aB := w.observeOf(w.ctx, c10Names["a"]).dump, w.observeOf(w.ctx, c10Names["b"]).dump
+	if after != before || aA != dA || aB != dB {
+		r.Find(Finding{Sig: "C10:restartapp-changed-state", What: "client stores differ after the whole-app restart from the exported genesis", Ops: w.histCopy(), Obs: aA + " | " + aB, Req: dA + " | " + dB})
+	}
+	r.Count("restartapp")
+	if w.cur == "a" {
+		w.otherDump = aB
+	} else {
+		w.otherDump = aA
+	}
+	return "ok " + aA + " | " + aB
 }
 
 func c10ErrClass(msg string) string {
@@ -309,26 +544,45 @@ func (w *c10World) apply(r *Rec, op string) string {
 	f := strings.Fields(op)
 	w.hist = append(w.hist, op)
 	switch f[0] {
-	case "reset":
-		w.ctx, _ = w.base.CacheContext()
-		w.hist = []string{op}
-		w.accepted = map[common.Hash]*c10Hdr{}
-		w.chainID, _ = strconv.ParseUint(f[2], 10, 64)
-		w.trusting, _ = strconv.ParseUint(f[3], 10, 64)
-		h, ok := c10Parse(f[4:])
+	case "reset", "create":
+		off := 0
+		if f[0] == "reset" {
+			w.ctx, w.write = w.base.CacheContext()
+			w.hist = []string{op}
+			w.cur, w.name = "a", c10Names["a"]
+			w.other, w.otherDump = c10Book{}, "-"
+			off = 1
+		}
+		w.c10Book = c10Book{created: true, accepted: map[common.Hash]*c10Hdr{}}
+		w.chainID, _ = strconv.ParseUint(f[1+off], 10, 64)
+		w.trusting, _ = strconv.ParseUint(f[2+off], 10, 64)
+		h, ok := c10Parse(f[3+off:])
 		if !ok {
 			r.t.Fatalf("bad header in %q", op)
 		}
 		p := h.proto()
 		cs := &xibcethtypes.ClientState{Header: p, ChainId: w.chainID, ContractAddress: []byte("0x00"), TrustingPeriod: w.trusting, TimeDelay: 0, BlockDelay: 1}
 		cons := &xibcethtypes.ConsensusState{Timestamp: h.Time, Height: p.Height, Root: h.Root}
-		if err := w.app.XIBCKeeper.ClientKeeper.CreateClient(w.ctx, c10Chain, cs, cons); err != nil {
+		if err := w.app.XIBCKeeper.ClientKeeper.CreateClient(w.ctx, w.name, cs, cons); err != nil {
 			r.t.Fatalf("CreateClient: %v", err)
 		}
 		w.accepted[h.Hash] = h
 		w.head = h.Hash
 		w.lo0 = h.Number
+		w.frame(r, "create")
 		return "ok " + w.observe(w.ctx).dump
+	case "use":
+		if f[1] != w.cur {
+			w.otherDump = w.observe(w.ctx).dump
+			w.c10Book, w.other = w.other, w.c10Book
+			w.cur, w.name = f[1], c10Names[f[1]]
+		}
+		r.Count("use." + f[1])
+		return "ok " + w.observe(w.ctx).dump
+	case "restart":
+		return w.restart(r)
+	case "restartapp":
+		return w.restartApp(r)
 	case "upd", "probe":
 		now, _ := strconv.ParseUint(f[1], 10, 64)
 		h, ok := c10Parse(f[2:])
@@ -403,6 +657,23 @@ func (w *c10World) apply(r *Rec, op string) string {
 			r.Find(Finding{Sig: sig, What: fmt.Sprintf("valid child (height %d) of the stored header %x (fork height %d, lowest consensus state %d) is rejected: %s", h.Number, parent.Hash[:4], fork, before.consLo, msg),
 				Ops: w.histCopy(), Obs: res + ": " + msg, Req: "accepted (never_wedged)"})
 		}
+		if w.chainID != 4 && stored && res == "err" && (broken == "pow" || broken == "difficulty" || broken == "extra") {
+			// which rule rejected it?  a header carrying exactly the difficulty the rule demands (floor included) must not be
+			// rejected for its difficulty, one carrying another value must be (the rule is checked before the seal)
+			right := ethash.CalcDifficulty(c10AllForks, h.Time, parent.eth()).Cmp(h.Difficulty) == 0
+			saysDiff := strings.Contains(msg, "invalid difficulty")
+			if right && saysDiff {
+				r.Find(Finding{Sig: "C10:right-difficulty-rejected", What: "a header with exactly the difficulty of the rule is rejected as having a wrong difficulty: " + msg, Ops: w.histCopy(), Obs: msg, Req: "difficulty rule satisfied"})
+			}
+			if !right && !saysDiff {
+				r.Find(Finding{Sig: "C10:wrong-difficulty-not-detected", What: "a header with a wrong difficulty passes the difficulty rule (rejected later: " + msg + ")", Ops: w.histCopy(), Obs: msg, Req: "rejected by the difficulty rule"})
+			}
+			if right {
+				r.Count("difficulty.right-value")
+			} else {
+				r.Count("difficulty.wrong-value")
+			}
+		}
 		if belowLine {
 			if res != "ok" {
 				// KNOWN FINDING (docs/C10.md): the header is still in the index (side-branch entries are never pruned) but the
@@ -417,11 +688,17 @@ func (w *c10World) apply(r *Rec, op string) string {
 		if res == "ok" && (!stored || broken != "") {
 			r.Find(Finding{Sig: "C10:accepted-invalid:" + broken, What: "accepted header violates rule " + broken + " (or its parent is not stored)", Ops: w.histCopy(), Obs: "accepted", Req: "rejected (accept_sound)"})
 		}
+		w.frame(r, f[0])
 		if f[0] == "probe" || res != "ok" {
-			if f[0] == "upd" {
-				if after := w.observe(w.ctx); after.dump != before.dump {
-					r.Find(Finding{Sig: "C10:failed-update-changed-state", What: "rejected update changed the store", Ops: w.histCopy(), Obs: after.dump, Req: before.dump})
+			if after := w.observe(w.ctx); after.dump != before.dump {
+				sig, what := "C10:failed-update-changed-state", "rejected update changed the store"
+				if f[0] == "probe" {
+					sig, what = "C10:discarded-update-changed-state", "an update executed on a dropped cache context changed the store"
 				}
+				r.Find(Finding{Sig: sig, What: what, Ops: w.histCopy(), Obs: after.dump, Req: before.dump})
+			}
+			if f[0] == "probe" {
+				r.Count("discarded." + res)
 			}
 			return res
 		}
@@ -497,7 +774,7 @@ func (g *c10Gen) child(p *c10Hdr, dt uint64) *c10Hdr {
 	rng := g.r.Rng
 	g.nextID++
 	h := &c10Hdr{ParentHash: p.Hash[:], UncleHash: ethtypes.EmptyUncleHash[:], Coinbase: make([]byte, 20), Root: g.rnd32(), TxHash: ethtypes.EmptyRootHash[:],
-		ReceiptHash: ethtypes.EmptyRootHash[:], Difficulty: big.NewInt(int64(1 + rng.Intn(2))), Number: p.Number + 1, Time: p.Time + dt,
+		ReceiptHash: ethtypes.EmptyRootHash[:], Difficulty: big.NewInt(int64(1 + rng.Intn(2))), Number: p.Number + 1, Rev: p.Rev, Time: p.Time + dt,
 		Extra: []byte(fmt.Sprintf("n%d", g.nextID)), MixDigest: make([]byte, 32), Nonce: g.nextID}
 	lim := p.GasLimit / 1024
 	h.GasLimit = p.GasLimit
@@ -522,12 +799,16 @@ func (g *c10Gen) child(p *c10Hdr, dt uint64) *c10Hdr {
 	case 2:
 		h.GasUsed = 0
 	default:
-		h.GasUsed = uint64(rng.Int63n(int64(h.GasLimit) + 1))
+		if h.GasLimit >= 1<<62 {
+			h.GasUsed = h.GasLimit / 2
+		} else {
+			h.GasUsed = uint64(rng.Int63n(int64(h.GasLimit) + 1))
+		}
 	}
 	if rng.Intn(8) == 0 {
 		h.UncleHash = g.rnd32()
 	}
-	h.BaseFee = misc.CalcBaseFee(c10London, p.eth())
+	h.BaseFee = c10Base(p)
 	h.seal()
 	return h
 }
@@ -843,11 +1124,341 @@ func c10RepoDir() string {
 	return "/repo"
 }
 
+// ---- hardening round: low base fees, boundary values, two clients, restarts ---------------------------------------
+
+func (g *c10Gen) genesisWith(number, t, gasLimit, gasUsed uint64, baseFee *big.Int) *c10Hdr {
+	h := g.genesis(number, t)
+	h.GasLimit, h.GasUsed, h.BaseFee = gasLimit, gasUsed, new(big.Int).Set(baseFee)
+	h.seal()
+	return h
+}
+
+// childGas: rule-abiding child of p with the given gas limit / gas used (the caller keeps the limit within bounds)
+func (g *c10Gen) childGas(p *c10Hdr, dt, gasLimit, gasUsed uint64) *c10Hdr {
+	h := g.child(p, dt)
+	h.GasLimit, h.GasUsed = gasLimit, gasUsed
+	h.seal()
+	return h
+}
+
+func c10WithBase(h *c10Hdr, b *big.Int) *c10Hdr {
+	m := *h
+	m.Difficulty, m.BaseFee = new(big.Int).Set(h.Difficulty), new(big.Int).Set(b)
+	m.seal()
+	return &m
+}
+
+// base fees of a few wei / gas use barely above the target: the minimum-step case of CalcBaseFee (delta rounds to 0 → +1),
+// several verifications in one process, competing branches, and the wrong base fees a corrupted floor would produce
+func (g *c10Gen) lowFeeHistory() []string {
+	rng := g.r.Rng
+	gl := uint64(30000000)
+	if rng.Intn(3) == 0 {
+		gl = 5000 + uint64(rng.Intn(20000))
+	}
+	target := gl / 2
+	gen := g.genesisWith(uint64(1+rng.Intn(1000)), 1700000000, gl, target+1, big.NewInt(int64(rng.Intn(8))))
+	now := uint64(1700001000)
+	ops := []string{g.reset(4, 100000000, gen)}
+	tip := gen
+	all := []*c10Hdr{gen}
+	var prevBase *big.Int
+	for i := 0; i < 6+rng.Intn(6); i++ {
+		p := tip
+		if rng.Intn(4) == 0 {
+			p = all[rng.Intn(len(all))]
+		}
+		var gu uint64
+		switch rng.Intn(6) {
+		case 0:
+			gu = p.GasLimit / 2 // fee unchanged for the grandchild
+		case 1:
+			gu = 0
+		case 2:
+			gu = p.GasLimit
+		default:
+			gu = p.GasLimit/2 + 1 + uint64(rng.Intn(3)) // barely above target
+		}
+		c := g.childGas(p, 1+uint64(rng.Intn(3)), p.GasLimit, gu)
+		if p.GasUsed > p.GasLimit/2 {
+			d := new(big.Int).Sub(c.BaseFee, p.BaseFee)
+			if d.Cmp(big.NewInt(1)) == 0 {
+				g.r.Count("lowfee.minimum-step")
+			}
+		}
+		// wrong base fees first (must be rejected), then the right one
+		wrong := []*big.Int{new(big.Int).Add(c.BaseFee, big.NewInt(1)), new(big.Int).Set(p.BaseFee)}
+		if c.BaseFee.Sign() > 0 {
+			wrong = append(wrong, new(big.Int).Sub(c.BaseFee, big.NewInt(1)))
+		}
+		if prevBase != nil { // parent fee + (an earlier parent fee + 1): what a floor overwritten by an earlier call yields
+			wrong = append(wrong, new(big.Int).Add(p.BaseFee, new(big.Int).Add(prevBase, big.NewInt(1))))
+		}
+		for _, wb := range wrong {
+			if wb.Cmp(c.BaseFee) != 0 {
+				ops = append(ops, c10Op("probe", now, c10WithBase(c, wb)))
+				g.r.Count("lowfee.wrong-base-fee")
+			}
+		}
+		ops = append(ops, c10Op("upd", now, c))
+		prevBase = p.BaseFee
+		all = append(all, c)
+		if p == tip {
+			tip = c
+		}
+		ops = append(ops, c10Op("probe", now, g.childGas(all[rng.Intn(len(all))], 1, all[0].GasLimit, all[0].GasLimit/2+1)))
+	}
+	return ops
+}
+
+func c10Pow2(k uint, d int64) *big.Int {
+	return new(big.Int).Add(new(big.Int).Lsh(big.NewInt(1), k), big.NewInt(d))
+}
+
+// boundary values of every numeric field (class k)
+func (g *c10Gen) boundaryHistory(k int) []string {
+	rng := g.r.Rng
+	t0 := uint64(1700000000)
+	now := t0 + 1000
+	both := func(ops []string, h *c10Hdr) []string { // a probe, then the update
+		return append(ops, c10Op("probe", now, h), c10Op("upd", now, h))
+	}
+	switch k {
+	case 0: // gas limit around the 5000 minimum and the ±parent/1024 bound of small limits
+		gl := uint64(5000 + rng.Intn(6))
+		gen := g.genesisWith(7, t0, gl, gl/2, big.NewInt(1000))
+		ops := []string{g.reset(4, 100000000, gen)}
+		p := gen
+		for _, x := range []uint64{4999, 5000, 5001, 4998, gl - gl/1024, gl + gl/1024, gl - (gl/1024 - 1), gl + (gl/1024 - 1), 5000} {
+			c := g.childGas(p, 1, x, x/2)
+			ops = both(ops, c)
+			g.r.Count("boundary.gaslimit-5000")
+			if x >= 5000 && x+p.GasLimit/1024 > p.GasLimit && x < p.GasLimit+p.GasLimit/1024 {
+				p = c
+			}
+		}
+		return ops
+	case 1: // gas limit at the bound of large limits, the 2^63-1 cap, gas used at the limit
+		base := []uint64{30000000, 1<<31 - 1, 1 << 32, 1<<53 + 1, 1<<63 - 1}[rng.Intn(5)]
+		gen := g.genesisWith(1<<31-1, t0, base, base/2, big.NewInt(7))
+		ops := []string{g.reset(4, 100000000, gen)}
+		lim := base / 1024
+		for _, x := range []uint64{base - lim, base - lim + 1, base + lim - 1, base + lim, base, 1 << 63, 1<<63 - 1} {
+			if x < base-lim-5 && x != 1<<63 {
+				continue
+			}
+			for _, gu := range []uint64{x, x / 2} {
+				ops = append(ops, c10Op("probe", now, g.childGas(gen, 1, x, gu)))
+			}
+			ops = append(ops, c10Op("probe", now, g.childGas(gen, 1, x, x/2+1)))
+			g.r.Count("boundary.gaslimit-bound")
+		}
+		ops = append(ops, c10Op("upd", now, g.childGas(gen, 1, base-lim+1, base/2)))
+		return ops
+	case 2: // base fee 0..7 wei and huge, parent gas use below / at / above target
+		var fees []*big.Int
+		for i := int64(0); i < 8; i++ {
+			fees = append(fees, big.NewInt(i))
+		}
+		fees = append(fees, c10Pow2(64, -1), c10Pow2(64, 0), c10Pow2(128, 0), c10Pow2(255, 0), c10Pow2(256, -1), c10Pow2(256, 0), big.NewInt(10).Exp(big.NewInt(10), big.NewInt(30), nil))
+		f := fees[rng.Intn(len(fees))]
+		gl := uint64(30000000)
+		gen := g.genesisWith(1<<32+1, t0, gl, []uint64{0, gl / 2, gl/2 + 1, gl, gl/2 - 1}[rng.Intn(5)], f)
+		ops := []string{g.reset(4, 100000000, gen)}
+		p := gen
+		for i := 0; i < 5; i++ {
+			c := g.childGas(p, 1, gl, []uint64{0, gl / 2, gl/2 + 1, gl, gl/2 - 1}[rng.Intn(5)])
+			ops = append(ops, c10Op("probe", now, c10WithBase(c, new(big.Int).Add(c.BaseFee, big.NewInt(1)))))
+			ops = both(ops, c)
+			p = c
+			g.r.Count("boundary.basefee")
+		}
+		return ops
+	case 3: // block numbers: 0, 1, 2^31, 2^32, the bomb-delay blocks of the difficulty rule
+		// (heights ≥ ~2^36 are not generated: the difficulty calculator, which runs for chain id 4 too, computes 2^((n-9699999)/100000-2))
+		nums := []uint64{0, 1, 1<<31 - 1, 1 << 31, 1<<32 - 1, 1 << 32, 1<<32 + 1, 9699997, 9699998, 9699999, 9700000, 9799998, 9899999, 9900000}
+		n := nums[rng.Intn(len(nums))]
+		gen := g.genesisWith(n, t0, 30000000, 15000000, big.NewInt(1000000000))
+		ops := []string{g.reset(4, 100000000, gen)}
+		a1 := g.child(gen, 1)
+		b1 := g.child(gen, 2)
+		a2 := g.child(a1, 1)
+		b2 := g.child(b1, 1)
+		a3 := g.child(a2, 1)
+		for _, h := range []*c10Hdr{a1, b1, a2, a3, b2} {
+			ops = both(ops, h)
+		}
+		ops = append(ops, c10Op("probe", now, g.child(b2, 1)), c10Op("probe", now, g.child(a3, 1)), c10Op("probe", now, g.child(gen, 3)))
+		g.r.Count("boundary.number")
+		return ops
+	case 4: // time stamps: huge values, == parent, == now+15, == now+16
+		ts := []uint64{1, 1<<31 - 1, 1 << 32, 1<<53 - 1, 1<<62 - 100}
+		tg := ts[rng.Intn(len(ts))]
+		gen := g.genesisWith(42, tg, 30000000, 15000000, big.NewInt(9))
+		nw := tg + 20
+		ops := []string{g.reset(4, 1<<62, gen)}
+		for _, tt := range []uint64{tg, tg + 1, nw + 15, nw + 16, nw + 14, tg - 1} {
+			c := g.child(gen, 1)
+			c.Time = tt
+			c.seal()
+			ops = append(ops, c10Op("probe", nw, c))
+			g.r.Count("boundary.time")
+		}
+		c := g.child(gen, 1)
+		c.Time = nw + 15
+		c.seal()
+		ops = append(ops, c10Op("upd", nw, c), c10Op("probe", nw+1, g.child(c, 1)), c10Op("probe", nw, g.child(c, 1)))
+		return ops
+	case 5: // trusting period: 0, 1, exactly at / one second past the deadline, 2^63, 2^64-1 (wraps)
+		tr := []uint64{0, 1, 50, 1 << 63, 1<<64 - 1, 1<<64 - 1700000001}[rng.Intn(6)]
+		gen := g.genesisWith(5, t0, 30000000, 15000000, big.NewInt(9))
+		ops := []string{g.reset(4, tr, gen)}
+		c := g.child(gen, 1)
+		d := g.child(c, 1)
+		for _, nw := range []uint64{t0, t0 + tr, t0 + tr + 1, t0 + 1} {
+			if nw < t0 || nw > 1<<62 {
+				continue
+			}
+			ops = append(ops, c10Op("probe", nw, c))
+		}
+		ops = append(ops, c10Op("upd", c.Time, c), c10Op("probe", c.Time+tr, d), c10Op("probe", c.Time+tr+1, d), c10Op("upd", d.Time, d),
+			c10Op("probe", d.Time, g.child(d, 1)), c10Op("probe", d.Time, g.child(gen, 5)))
+		g.r.Count("boundary.trusting")
+		return ops
+	case 7: // revision numbers: creation header at revision r0; children must stay in it
+		r0 := []uint64{0, 1, 1 << 32, 1<<64 - 1}[rng.Intn(4)]
+		gen := g.genesisWith(50, t0, 30000000, 15000000, big.NewInt(9))
+		gen.Rev = r0
+		ops := []string{g.reset(4, 100000000, gen)}
+		a1 := g.child(gen, 1)
+		b1 := g.child(gen, 2)
+		a2 := g.child(a1, 1)
+		withRev := func(h *c10Hdr, rev uint64) *c10Hdr { m := *h; m.Rev = rev; return &m }
+		ops = both(ops, a1)
+		ops = append(ops, c10Op("probe", now, withRev(b1, r0+1)), c10Op("probe", now, withRev(a1, r0+7)), c10Op("probe", now, withRev(a2, r0^1)))
+		ops = both(ops, b1)
+		ops = both(ops, a2)
+		ops = append(ops, c10Op("probe", now, g.child(b1, 1)), c10Op("probe", now, withRev(g.child(a2, 1), 0)), c10Op("probe", now, withRev(g.child(a2, 1), 1)),
+			c10Op("upd", now, withRev(g.child(b1, 1), r0+1))) // last op of the history
+		g.r.Count("boundary.revision")
+		return ops
+	default: // difficulty values on chain id 4 (any non-zero low word) and on chain id 5 (rule + floor, PoW unaffordable)
+		gen := g.genesisWith(77, t0, 30000000, 15000000, big.NewInt(9))
+		chain := uint64(4)
+		if k == 6 || rng.Intn(2) == 0 {
+			chain = 5
+			gen.Difficulty = big.NewInt(int64(131072 + (rng.Intn(4)/2)*rng.Intn(3)*1000000)) // at the floor half of the time
+			gen.seal()
+		}
+		ops := []string{g.reset(chain, 100000000, gen)}
+		for _, dv := range []*big.Int{big.NewInt(0), big.NewInt(1), big.NewInt(131071), big.NewInt(131072), big.NewInt(131073), c10Pow2(64, -1), c10Pow2(64, 0), c10Pow2(64, 1), c10Pow2(128, 0), c10Pow2(256, -1)} {
+			c := g.child(gen, 1+uint64(rng.Intn(200)))
+			c.Difficulty = dv
+			c.seal()
+			ops = append(ops, c10Op("probe", now, c))
+			g.r.Count("boundary.difficulty")
+		}
+		if chain != 4 { // exactly the value of the rule (at the 131072 floor for slow blocks), one above, one below
+			for _, dt := range []uint64{1, 8, 9, 10, 17, 18, 100, 900, 5000} {
+				c := g.child(gen, dt)
+				want := ethash.CalcDifficulty(c10AllForks, c.Time, gen.eth())
+				for _, d := range []int64{0, 1, -1} {
+					x := *c
+					x.Difficulty = new(big.Int).Add(want, big.NewInt(d))
+					x.BaseFee = new(big.Int).Set(c.BaseFee)
+					x.seal()
+					ops = append(ops, c10Op("probe", now+5000, &x))
+				}
+				if want.Cmp(big.NewInt(131072)) == 0 {
+					g.r.Count("boundary.difficulty-floor")
+				}
+			}
+		}
+		return ops
+	}
+}
+
+// two ETH clients in one world, operations interleaved; in half of the histories both follow the SAME chain
+func (g *c10Gen) twoClientHistory(restarts bool) []string {
+	rng := g.r.Rng
+	genA := g.genesis(uint64(10+rng.Intn(100)), 1700000000)
+	genB := genA
+	same := rng.Intn(2) == 0
+	if !same {
+		genB = g.genesis(genA.Number+uint64(rng.Intn(3)), 1700000000)
+	}
+	mk := func(gen *c10Hdr) []*c10Hdr {
+		nodes := []*c10Hdr{gen}
+		for i := 0; i < 6+rng.Intn(6); i++ {
+			p := nodes[c10Max(0, len(nodes)-1-rng.Intn(3))]
+			nodes = append(nodes, g.child(p, 1+uint64(rng.Intn(3))))
+		}
+		return nodes
+	}
+	ta := mk(genA)
+	tb := ta
+	if !same {
+		tb = mk(genB)
+	}
+	now := uint64(1700000100)
+	trA, trB := uint64(100000000), uint64(100000000)
+	if rng.Intn(2) == 0 {
+		trB = 1 << 40
+	}
+	ops := []string{g.reset(4, trA, genA), "use b", fmt.Sprintf("create 4 %d %s", trB, genB)}
+	ia, ib, cur := 1, 1, "b"
+	use := func(x string) {
+		if cur != x {
+			ops = append(ops, "use "+x)
+			cur = x
+		}
+	}
+	for ia < len(ta) || ib < len(tb) {
+		pickA := ib >= len(tb) || (ia < len(ta) && rng.Intn(2) == 0)
+		if pickA {
+			use("a")
+			ops = append(ops, c10Op("upd", now, ta[ia]), c10Op("probe", now, g.child(ta[rng.Intn(ia+1)], 1)))
+			ia++
+		} else {
+			use("b")
+			ops = append(ops, c10Op("upd", now, tb[ib]), c10Op("probe", now, g.child(tb[rng.Intn(ib+1)], 1)))
+			ib++
+		}
+		if restarts && rng.Intn(6) == 0 {
+			ops = append(ops, "restart")
+		}
+	}
+	use("a")
+	ops = append(ops, c10Op("probe", now, g.child(ta[len(ta)-1], 1)))
+	use("b")
+	ops = append(ops, c10Op("probe", now, g.child(tb[len(tb)-1], 1)))
+	return ops
+}
+
+// a restart after some of the accepted updates
+func (g *c10Gen) withRestarts(ops []string, every int) []string {
+	var out []string
+	for _, op := range ops {
+		out = append(out, op)
+		if strings.HasPrefix(op, "upd ") && g.r.Rng.Intn(every) == 0 {
+			out = append(out, "restart")
+		}
+	}
+	return out
+}
+
 func TestC10(t *testing.T) {
 	r := NewRec(t, "C10")
 	defer r.Close()
 	w := newC10World()
 	run := func(h []string) {
+		w := w
+		for _, op := range h {
+			if op == "restartapp" {
+				w = newC10World() // the committed state must not leak into later histories
+				break
+			}
+		}
 		for _, op := range h {
 			out := w.apply(r, op)
 			r.Op(op, out)
@@ -855,6 +1466,7 @@ func TestC10(t *testing.T) {
 				r.Nontrivial(out)
 			}
 		}
+		c10Constants(r, w)
 	}
 	g := &c10Gen{r: r, variant: "orig"}
 	// which text of RestrictChain does the tree under test have?  (decides the model variant only; the oracle is independent)
@@ -866,6 +1478,14 @@ func TestC10(t *testing.T) {
 		}
 		if strings.HasPrefix(out, "ok") {
 			g.variant = "fixed"
+		}
+		// does the tree compare a header's revision number with its parent's?
+		ops := g.witness()
+		w.apply(probeRec, ops[0])
+		a1, _ := c10Parse(strings.Fields(ops[1])[2:])
+		a1.Rev = 3
+		if res, _ := w.submit(a1, 1700000100, false); res != "ok" {
+			g.variant += "+rev"
 		}
 		r.Extra["restrictchain_variant"] = g.variant
 	}
@@ -974,6 +1594,50 @@ func TestC10(t *testing.T) {
 	for i := 0; i < nPrune; i++ {
 		run(g.pruneHistory(15 + r.Rng.Intn(25)))
 		r.Count("history.prune")
+	}
+	// 6. hardening round: minimum-step base fees, boundary classes, two interleaved clients, restarts in the middle
+	nLow, nB, nTwo := 6, 2, 6
+	if thorough {
+		nLow, nB, nTwo = 30, 8, 30
+	}
+	for i := 0; i < nLow; i++ {
+		run(g.lowFeeHistory())
+		r.Count("history.lowfee")
+	}
+	for i := 0; i < nB; i++ {
+		for k := 0; k < 9; k++ {
+			run(g.boundaryHistory(k))
+		}
+	}
+	for i := 0; i < nTwo; i++ {
+		run(g.twoClientHistory(i%2 == 0))
+		r.Count("history.two-clients")
+	}
+	for i := 0; i < nTwo; i++ { // restarts with side branches, re-submissions and after pruning
+		n := 6 + r.Rng.Intn(8)
+		pa := make([]int, n)
+		order := make([]int, n)
+		for j := range pa {
+			pa[j] = c10Max(0, j-r.Rng.Intn(4))
+			order[j] = j + 1
+		}
+		run(g.withRestarts(g.treeHistory(pa, r.Rng.Intn(4), order, 3, true), 3))
+		run(g.withRestarts(g.pruneHistory(12+r.Rng.Intn(12)), 4))
+		r.Count("history.restarts")
+	}
+	// whole-app restarts (a sample: each needs two app instances)
+	nApp := 1
+	if thorough {
+		nApp = 2
+	}
+	for i := 0; i < nApp; i++ {
+		h := g.twoClientHistory(false)
+		k := len(h) * 2 / 3
+		h = append(append(append([]string{}, h[:k]...), "restartapp"), h[k:]...)
+		run(h)
+		ph := g.pruneHistory(14)
+		ph = append(append(append([]string{}, ph[:len(ph)-8]...), "restartapp"), ph[len(ph)-8:]...)
+		run(ph)
 	}
 	// 5. chain id 1: recorded main-net headers (ethash verification costs seconds per header)
 	if r.Shard == 0 {
